@@ -59,6 +59,9 @@ pub enum DfOp {
     /// coherent rot of three related fields: item k grows by `delta` bytes, item k+1 starts `delta` later and
     /// shrinks by `delta` (offsets stay sequential, totals unchanged)
     RotShift { item: u8, delta: i8 },
+    /// coherent rot of the header: `field` (0 size_items, 1 size_data, 2 num_items, 3 num_data, 4 num_item_types)
+    /// changes by `delta` and `size` / `swaplen` are recomputed so that the header stays self-consistent
+    RotHeader { field: u8, delta: i8 },
 }
 
 const BOUNDARY: [i32; 16] = [0, 1, -1, 2, 3, 4, 5, 7, 8, i32::MIN, i32::MAX, i32::MAX - 3, 0x10000, 0xffff, -4, 0x7fff_fffc];
@@ -592,7 +595,10 @@ impl DfEngine {
                     inconsistent = Some(format!("read_data({}) differs from the {}th element of data_iter()", i, i));
                 }
             }
-            let _ = reader.debug_dump();
+            // (the dump formats every item and re-reads every data block: only for small files)
+            if items.len() <= 300 && items.iter().map(|i| i.data.len()).sum::<usize>() <= 2000 && data.iter().map(|d| d.as_ref().map(|x| x.len()).unwrap_or(0)).sum::<usize>() <= 65_536 {
+                let _ = reader.debug_dump();
+            }
             if let Some(x) = inconsistent {
                 return Err(format!("INCONSISTENT {}", x));
             }
@@ -791,6 +797,7 @@ impl Engine for DfEngine {
                 3 => ops.push(DfOp::CbError { at_call: s.range(1, 30) as u8 }),
                 4 => ops.push(DfOp::ShrinkAfterOpen { n: *s.pick(&[1u32, 4, 100, 100000]) }),
                 5 => ops.push(DfOp::AllocLimit { bytes: *s.pick(&[0u32, 1, 100, 5000]) }),
+                _ if s.chance(1, 2) => ops.push(DfOp::RotHeader { field: s.below(5) as u8, delta: *s.pick(&[1i8, 2, 3, 4, -1, -2, -3, -4, 5, 8, 127, -128]) }),
                 _ => ops.push(DfOp::RotShift { item: s.below(16) as u8, delta: *s.pick(&[1i8, 2, 3, 4, -1, -2, -4, 8]) }),
             }
         }
@@ -862,6 +869,31 @@ impl Engine for DfEngine {
                         damaged = true;
                     }
                 }
+                DfOp::RotHeader { field, delta } => {
+                    // header ints: 0 magic, 1 version, 2 size, 3 swaplen, 4 num_item_types, 5 num_items, 6 num_data, 7 size_items, 8 size_data
+                    if bytes.len() >= 36 {
+                        let rd = |b: &Vec<u8>, k: usize| i32::from_le_bytes([b[4 * k], b[4 * k + 1], b[4 * k + 2], b[4 * k + 3]]) as i64;
+                        let wr = |b: &mut Vec<u8>, k: usize, v: i64| b[4 * k..4 * k + 4].copy_from_slice(&(v as i32).to_le_bytes());
+                        let d = delta as i64;
+                        let v4 = rd(&bytes, 1) == 4;
+                        // (header int, bytes of size/swaplen per unit)
+                        let (k, per_size, per_swap): (usize, i64, i64) = match field % 5 {
+                            0 => (7, 1, 1),
+                            1 => (8, 1, 0),
+                            2 => (5, 4, 4),
+                            3 => (6, if v4 { 8 } else { 4 }, if v4 { 8 } else { 4 }),
+                            _ => (4, 12, 12),
+                        };
+                        let v = rd(&bytes, k) + d;
+                        wr(&mut bytes, k, v);
+                        let size = rd(&bytes, 2) + d * per_size;
+                        wr(&mut bytes, 2, size);
+                        let swap = rd(&bytes, 3) + d * per_swap;
+                        wr(&mut bytes, 3, swap);
+                        ctx.count("fault_bit_rot_coherent");
+                        damaged = true;
+                    }
+                }
                 DfOp::FlipBit { at, bit } => {
                     if !bytes.is_empty() {
                         let k = at as usize % bytes.len();
@@ -909,7 +941,7 @@ impl Engine for DfEngine {
             }
         };
         // requests must stay inside the declared data section unless the header itself was changed
-        let header_touched = case.ops.iter().any(|o| matches!(o, DfOp::Rot { region: 0, .. } | DfOp::Rot { region: 3, .. } | DfOp::FlipBit { .. } | DfOp::Truncate { .. } | DfOp::RotShift { .. }));
+        let header_touched = case.ops.iter().any(|o| matches!(o, DfOp::Rot { region: 0, .. } | DfOp::Rot { region: 3, .. } | DfOp::FlipBit { .. } | DfOp::Truncate { .. } | DfOp::RotShift { .. } | DfOp::RotHeader { .. }));
         if let (Some(o), false) = (&cb.oob_request, header_touched) {
             return Some(v("read-request-out-of-bounds", &[], format!("the reader asked the disk for bytes outside the data section: {}", o)));
         }
